@@ -149,7 +149,10 @@ func (ex *Exec) selectStmt(c *ctx, x *ssa.Select, work *[]*ctx, outs *[]Outcome)
 			if ex.chanReadyRecv(st, ch) {
 				rdy = append(rdy, i)
 			} else if st.ctxChans[ch.obj] && st.script.set && st.script.budget == 0 && st.script.willCancel {
-				// the consumer cancels once it has taken what it wanted
+				// the consumer cancels once it has taken what it wanted. That is an
+				// assumption about the future: it is checked when the consumer waits
+				// for the producer (WaitGroup.Wait) — by then this very channel must
+				// have been closed, or the real producer would still be parked here.
 				rdy = append(rdy, i)
 			}
 		} else {
@@ -195,6 +198,15 @@ func (ex *Exec) selectStmt(c *ctx, x *ssa.Select, work *[]*ctx, outs *[]Outcome)
 			elem := s.Chan.Type().Underlying().(*types.Chan).Elem()
 			var v Value = ex.zero(elem)
 			ok := false
+			if len(cd.buf) == 0 && !cd.closed {
+				// taken on the strength of the script's promise to cancel
+				na := map[int]bool{}
+				for k, b := range ci.st.assumedDone {
+					na[k] = b
+				}
+				na[ch.obj] = true
+				ci.st.assumedDone = na
+			}
 			if len(cd.buf) > 0 {
 				v, ok = cd.buf[0], true
 				cd.buf = append([]Value(nil), cd.buf[1:]...)
